@@ -1,14 +1,3 @@
-PARKED (wip, not loaded: not a .py file) - contracts/c19_feed.py, facet of commander:StarterModel.feed_model, group process_feed.
-State: with this file as contracts/c19_feed.py, `tools/run1.py commander:StarterModel.feed_model` discharges the 12
-obligations of the event loop (loop-init / loop-preserve of loop0: events name mocks, mock / live records separated, live
-_state / info_map / per-instance 'state' untouched, ~1 s) under a file-local ASSUMED abstraction of Commander.on_event,
-then stops with an ENGINE ERROR on the return expression: `unsupported: type of value ConstDict` - the list comprehension
-`[{'application_name': ..., ...} for x in sorted(self.process_list, key=lambda x: (...))]` builds one dict LITERAL per
-element of a symbolic list; pyvc/interp.py value_type() has no type for a ConstDict element of a summarised comprehension
-(needs: dict literal with string keys -> fresh payload record per element, keys 'application_name', 'process_name',
-'forced_reason', 'running_identifiers' in shapes.REC_KEYS).  Not a minimal engine change: parked.
-To resume: rename to contracts/c19_feed.py after the engine models record-valued comprehension elements.
-------------------------------------------------------------------------------------------------------------------------
 """C19 - Start predictions are side-effect free (clause 1, the event pump of the model): StarterModel.feed_model.
 
 Control-flow / frame facet in its OWN group: the acknowledgement `self.on_event(process, identifier)` (Commander.on_event,
